@@ -205,9 +205,20 @@ def rule_t2(chk: Check, ix: Index):
                     f"at end of input (readline returned '') the branch `{name}` must leave the line loop or raise; {how}")
 
 
+EOF_ATOMS = ("not state.line", "state.line == ''", "len(state.line) == 0", "not len(state.line)")
+# facts that hold whenever a fresh line has just been read (move_next_line resets the position): harmless as extra conjuncts
+IMPLIED_AT_LINE_START = ("state.pos == 0",)
+
+
 def _eof_test(e: ast.expr) -> bool:
-    s = norm_stmt(e)
-    return "not state.line" in s or "state.line == ''" in s
+    """Is `e` true whenever the input is exhausted (readline returned '')?  An EOF atom, a disjunction containing one, or a
+    conjunction of EOF atoms and facts implied at the start of a line.  `not state.line and <anything else>` is NOT: the other
+    conjunct can be false at end of input and the loop goes on without a line."""
+    if isinstance(e, ast.BoolOp) and isinstance(e.op, ast.Or):
+        return any(_eof_test(v) for v in e.values)
+    if isinstance(e, ast.BoolOp) and isinstance(e.op, ast.And):
+        return any(_eof_test(v) for v in e.values) and all(_eof_test(v) or norm_stmt(v) in IMPLIED_AT_LINE_START for v in e.values)
+    return norm_stmt(e) in EOF_ATOMS
 
 
 def _eof_leaves(ix: Index, body, loop, branch_cond: str = "") -> tuple[bool, str]:
@@ -534,10 +545,9 @@ def rule_e5(chk: Check, ix: Index):
 # ------------------------------------------------------------------ E6/X3: parse() never returns None
 def rule_e6(chk: Check, ix: Index):
     """parse() never returns None: on every path to a return, the returned name was tested not-None after its last
-    assignment, or the path passed a call of a helper that always raises.  Decided on the path set (blind to early returns
-    and if/else nesting)."""
+    assignment, or the path passed a call of a helper that always raises, or the value is the result of a Parser method for
+    which the same holds.  Decided on path sets (blind to early returns, if/else nesting, try/finally wrappers)."""
     from ..pyflow import stmt_paths
-    f = ix.get("Parser.parse")
     always_raise = set()
     for g in ix.funcs.values():
         if g.cls == "Parser":
@@ -545,47 +555,62 @@ def rule_e6(chk: Check, ix: Index):
             if not c.reach([c.entry.id]) & {c.exit.id}:
                 always_raise.add(g.node.name)
     chk.units["always_raising_helpers"] = sorted(always_raise)
+
+    def never_none(q: str, depth: int):
+        """(ok, n_none_tests, problems)"""
+        f = ix.get(q)
+        paths = stmt_paths(list(f.node.body))
+        bad_ret, leaks, n_none = [], [], 0
+        for pth in paths:
+            kind, val = pth[-1][1], pth[-1][2]
+            if kind == "raise":
+                continue
+            if kind == "end":
+                leaks.append(f"{q} falls off the end (returns None)")
+                continue
+            m = re.fullmatch(r"self\.(\w+)\(.*\)", val)
+            if m and f"Parser.{m.group(1)}" in ix.funcs and depth < 3:
+                ok2, n2, p2 = never_none(f"Parser.{m.group(1)}", depth + 1)
+                n_none += n2
+                leaks += p2
+                continue
+            if not re.fullmatch(r"[A-Za-z_]\w*", val):
+                bad_ret.append(val)
+                continue
+            safe = False
+            for x in reversed(pth[:-1]):
+                if x[0] == "do" and re.match(rf"(\(?{val}\b[^=]*=[^=])|({val} = )", x[1]):
+                    break
+                if x[0] == "cond" and ((x[1] == f"{val} is None" and x[2] is False) or (x[1] == f"{val} is not None" and x[2] is True)):
+                    safe = True
+                    break
+                if x[0] == "do":
+                    m = re.match(r"self\.(\w+)\(", x[1])
+                    if m and m.group(1) in always_raise:
+                        safe = True
+                        break
+            if any(x[0] == "cond" and ((x[1] == f"{val} is None" and x[2] is True) or (x[1] == f"{val} is not None" and x[2] is False)) for x in pth):
+                n_none += 1
+            if not safe:
+                leaks.append(f"{q}: return {val} without a not-None fact or an always-raising call")
+        return (not leaks and not bad_ret), n_none, leaks + [f"{q} returns {b}" for b in bad_ret]
+
+    f = ix.get("Parser.parse")
     try:
-        paths = stmt_paths([st for st in f.node.body])
+        ok, n_none, problems = never_none("Parser.parse", 0)
     except AnalysisError as e:
         chk.count("E6-parse-total")
         chk.undecided("E6-parse-total", "Parser.parse:none-raises", f.where, f"parse() is not straight-line decision code: {e}")
+        chk.count("E6-parse-total")
+        chk.undecided("E6-parse-total", "Parser.parse:returns", f.where, "not analysed")
         return
-    bad_ret, leaks, n_none = [], [], 0
-    for pth in paths:
-        kind, val = pth[-1][1], pth[-1][2]
-        if kind == "raise":
-            continue
-        if kind == "end":
-            leaks.append("falls off the end (returns None)")
-            continue
-        if not re.fullmatch(r"[A-Za-z_]\w*", val):
-            bad_ret.append(val)
-            continue
-        # walk backwards: facts about `val` since its last assignment
-        safe = False
-        for x in reversed(pth[:-1]):
-            if x[0] == "do" and re.match(rf"(\(?{val}\b[^=]*=[^=])|({val} = )", x[1]):
-                break
-            if x[0] == "cond" and ((x[1] == f"{val} is None" and x[2] is False) or (x[1] == f"{val} is not None" and x[2] is True)):
-                safe = True
-                break
-            if x[0] == "do":
-                m = re.match(r"self\.(\w+)\(", x[1])
-                if m and m.group(1) in always_raise:
-                    safe = True
-                    break
-        if any(x[0] == "cond" and ((x[1] == f"{val} is None" and x[2] is True) or (x[1] == f"{val} is not None" and x[2] is False)) for x in pth):
-            n_none += 1
-        if not safe:
-            leaks.append(f"return {val} without a not-None fact or an always-raising call")
     chk.count("E6-parse-total")
-    chk.require(not leaks and n_none > 0 and bool(always_raise), "E6-parse-total", "Parser.parse:none-raises", f.where,
-                f"a path of parse() can hand None to the caller: {leaks[:2]} (always-raising helpers: {sorted(always_raise)})"
-                if leaks else "parse() never tests its result for None")
+    chk.require(ok and n_none > 0 and bool(always_raise), "E6-parse-total", "Parser.parse:none-raises", f.where,
+                f"a path of parse() can hand None to the caller: {problems[:2]} (always-raising helpers: {sorted(always_raise)})"
+                if problems else "parse() never tests its result for None")
     chk.count("E6-parse-total")
-    chk.require(not bad_ret, "E6-parse-total", "Parser.parse:returns", f.where,
-                f"parse() returns something other than a checked local: {bad_ret}")
+    chk.require(not any(" returns " in p0 for p0 in problems), "E6-parse-total", "Parser.parse:returns", f.where,
+                f"parse() returns something other than a checked local: {problems[:2]}")
 
 
 def rule_t4(chk: Check, ix: Index):
@@ -647,6 +672,42 @@ def rule_t4(chk: Check, ix: Index):
     chk.units["scanner_patterns"] = sorted(pats)
 
 
+def rule_e4_guard(chk: Check, ix: Index):
+    """Literal concatenation adds two evaluated literals; str + bytes raises TypeError.  The guard in front of the addition
+    must reject exactly the mixed pairs, in both orders (finite-domain evaluation over {str, bytes} x {str, bytes})."""
+    from .. import constfold
+    n_sites = 0
+    for q, f in sorted(ix.funcs.items()):
+        if f.rel != repo.SUBHEADER:
+            continue
+        params = [a.arg for a in f.node.args.args if a.arg not in ("self", "cls")]
+        adds = [n for n in own_nodes(f.node) if isinstance(n, ast.Return) and isinstance(n.value, ast.BinOp) and isinstance(n.value.op, ast.Add)
+                and isinstance(n.value.left, ast.Name) and isinstance(n.value.right, ast.Name)
+                and n.value.left.id in params and n.value.right.id in params]
+        guards = [n for n in f.node.body if isinstance(n, ast.If) and "bytes" in norm_stmt(n.test) and any(
+            isinstance(c, ast.Call) and norm_stmt(c.func).startswith("self.raise_") for c in ast.walk(n))]
+        if not adds or not guards:
+            continue
+        n_sites += 1
+        l, r = adds[0].value.left.id, adds[0].value.right.id
+        bad = []
+        for a in ("s", b"s"):
+            for b in ("t", b"t"):
+                try:
+                    got = bool(constfold.fold_expr(guards[0].test, {l: a, r: b}))
+                except Exception as e:
+                    bad.append(("not evaluable", str(e)))
+                    continue
+                if got != (isinstance(a, bytes) != isinstance(b, bytes)):
+                    bad.append((type(a).__name__, type(b).__name__, "rejected" if got else "let through"))
+        chk.count("E7-action-type-hazard")
+        chk.require(not bad, "E7-action-type-hazard", f"{q}:mixed-literal-guard", f"{f.rel}:{guards[0].lineno}",
+                    f"`{norm_stmt(guards[0].test)}` in front of `{norm_stmt(adds[0].value)}` decides {bad[:2]}: a str literal next to a "
+                    f"bytes literal must be refused in both orders, otherwise the addition raises TypeError")
+    if not n_sites:
+        raise AnalysisError("E4: no guarded literal addition found in subheader.py")
+
+
 def ir_for_w1():
     return repo.ir_x()
 
@@ -684,6 +745,7 @@ def run(chk: Check):
     rule_e3c(chk, ix, reach)
     rule_e5(chk, ix)
     rule_e6(chk, ix)
+    rule_e4_guard(chk, ix)
     tr.feed(chk, {k: "E7-action-type-hazard" for k in (
         "S0-bad-attribute", "S0-none-attribute", "S0-none-iterated", "S0-none-subscript", "S0-bad-operand", "S0-bad-index",
         "S0-unpack-arity", "S0-call-arity", "S0-none-len", "S0-chain-nonlist", "S0-index-empty", "E4-mixed-literal-add", "S0-assert-none")})
